@@ -3,8 +3,8 @@ from __future__ import annotations
 from classify_checks import *
 
 PID = "C09"
-THEOREMS = CLOSURE_THEOREMS + ["PauLie.C09.C09_name_dim", "PauLie.C09.mergeSummands_dim"]
-IMPORTS = CLOSURE_IMPORTS + ["PauLieVerif.Properties.C09"]
+THEOREMS = CLOSURE_THEOREMS + ["PauLie.C09.C09_name_dim", "PauLie.C09.mergeSummands_dim", "PauLie.Tie.census_tie"]
+IMPORTS = CLOSURE_IMPORTS + ["PauLieVerif.Properties.C09", "PauLieVerif.Proofs.TieCensus"]
 
 def batch_oracle(lines, outs):
     colls = [inputs_of(l) for l in lines]
